@@ -33,8 +33,9 @@ def case_strategy(draw, tier="quick"):
     t = draw(dc.table(max_rows=14, time_index=timed, min_rows=2))
     cuts = draw(dc.cuts_for(len(t["rows"])))
     group = draw(st.sampled_from([None, None, "col", "series"]))
-    w = {"value": draw(st.sampled_from(["1s", "2s", "5s"]))} if timed else \
-        {"n": draw(st.integers(1, 6))}
+    # (a row-count window may also run over a time-indexed table: duplicate labels in a batch)
+    w = {"value": draw(st.sampled_from(["1s", "2s", "5s"]))} \
+        if timed and draw(st.integers(0, 3)) != 0 else {"n": draw(st.integers(1, 6))}
     expr = {"base": draw(st.sampled_from(["x", "y", "xy", "x"])), "group": group,
             "agg": draw(st.sampled_from(GAGGS if group else AGGS)), "window": w}
     if expr["agg"] == "value_counts":
@@ -47,6 +48,7 @@ def case_strategy(draw, tier="quick"):
         expr["base"] = draw(st.sampled_from(["x", "y"]))
     # every batch may carry its own RangeIndex 0..k-1 (labels repeat between batches)
     expr["per_batch_index"] = (not timed) and draw(st.booleans())
+    timed = "value" in w
     # derived frame defined before the grouper expression (the frame batch reaches the join of
     # frame and grouper first)
     expr["late_grouper"] = bool(group == "series" and draw(st.booleans()))
